@@ -312,6 +312,9 @@ func cmdCheck(args []string) {
 		assumptions = append(assumptions, "imprecision (sound over-approximation): "+n)
 	}
 	sort.Strings(assumptions)
+	// every check rests at least on these (also keeps the JSON field an array when nothing else is assumed)
+	assumptions = append(assumptions, "the VC generator, the memory model of DESIGN.md section 3 and the SMT solvers are trusted",
+		"go/ssa (x/tools v0.29.0) faithfully represents the Go source of /repo built with -tags=verif")
 	sort.Slice(samples, func(i, j int) bool { return samples[i].Name < samples[j].Name })
 	ev := map[string]interface{}{
 		"property_id": id,
